@@ -5,6 +5,7 @@ import numpy as np
 from .. import core, gen
 
 ID = 'C04'
+FOUNDATIONS = ['harness.foundation.cscalar']   # ties of the C++ helper functions the model rests on (generated from their text)
 LEVEL = 'proof'
 RULE = ('corpus; exhaustive scope: every 3-valued surface on the grids 1x1..2x3 (and 3x1, 3x2) x every marker '
         'placement with labels in {0,1,2} x {cross, box}, return_lines=True (thorough: all; quick: a seeded slice of '
